@@ -45,6 +45,25 @@ def main() -> int:
         return 2
     modname, level = ENGINES[a.prop]
     out = Outcome(a.prop, a.tier, level)
+
+    # watchdog: a check that does not finish (a lost worker result under memory pressure was seen once) must end as an
+    # infrastructure error (exit 2), never hang and never be read as a verdict
+    import multiprocessing
+    import threading
+    limit = int(os.environ.get("VERIF_WATCHDOG_S", "1800" if a.tier == "quick" else "10800"))
+
+    def _expired():
+        print(f"INFRA property={a.prop} tier={a.tier}: no result after {limit} s, giving up (exit 2)", file=sys.stderr, flush=True)
+        for ch in multiprocessing.active_children():
+            try:
+                ch.terminate()
+            except Exception:  # noqa: BLE001, S110
+                pass
+        os._exit(2)
+
+    wd = threading.Timer(limit, _expired)
+    wd.daemon = True
+    wd.start()
     try:
         mod = __import__(modname)
         if a.replay:
